@@ -119,7 +119,14 @@ def code_for_string_token(name, value, location):
 
     value_without_quotes = value[1:-1]
     if len(value_without_quotes) != 1:
-        value_without_quotes = value_without_quotes.encode("utf-8").decode("unicode_escape")
+        try:
+            value_without_quotes = value_without_quotes.encode("utf-8").decode("unicode_escape")
+        except UnicodeDecodeError as error:
+            # For example: "\x" without the two hexadecimal digits.
+            raise errors.InterfaceError(
+                "text for %s must use proper escape sequences but is: %s (%s)" % (name, _compat.text_repr(value), error),
+                location,
+            )
         if len(value_without_quotes) != 1:
             raise errors.InterfaceError(
                 "text for %s must be a single character but is: %s" % (name, _compat.text_repr(value)), location
@@ -584,6 +591,7 @@ class DecimalRange(Range):
             while not end_reached:
                 lower = None
                 upper = None
+                range_item = None
                 ellipsis_found = False
                 after_hyphen = False
                 next_token = next(tokens)
